@@ -4,7 +4,7 @@
     SAML Bindings reconstruction from the sent URL); which deliveries of a Success response carry which signature
     (callback model).  NOT modelled: SHA / RSA (a digest or signature over equal octets verifies; over different octets it
     does not, collisions aside), goxmldsig's reference processing, metadata signing flow (harness only). *)
-From Saml Require Import Base.Bytes Idp.FactTypes Gen.Facts Gen.Pure Xml.Tree Xml.C14N Core.RedirectSig Idp.Callback Proofs.CallbackProofs.
+From Saml Require Import Base.Bytes Idp.FactTypes Gen.Facts Gen.Pure Xml.Tree Xml.C14N Core.RedirectSig Idp.Callback Idp.Deliver Proofs.CallbackProofs.
 
 (** enveloped signatures: signer and verifier digest the same octets whenever no value contains a character that
     Canonical XML escapes ... *)
@@ -72,8 +72,14 @@ Proof.
   eexists. eexists. split; [vm_compute; reflexivity|reflexivity].
 Qed.
 
+(** which kind of signature a Success response gets is read off createSignature's statement sequence: enveloped for
+    the POST binding, detached (query parameters) for Redirect, none for any other stored binding *)
+Theorem C04_signature_kind_from_source : forall binding, sig_shape createSignature_seq (label_is binding) = Some (sig_for binding).
+Proof. exact sig_for_from_source. Qed.
+
 Print Assumptions C04_enveloped.
 Print Assumptions C04_enveloped_refuted.
 Print Assumptions C04_redirect.
 Print Assumptions C04_success_signature.
 Print Assumptions C04_never_unsigned_refuted.
+Print Assumptions C04_signature_kind_from_source.
